@@ -651,7 +651,12 @@ void eval_alloc(Ctx &x, int opi, const OpSpec &op, long info, const XOut &xo, co
                 uint64_t a_hash0, uint64_t b_hash0, uint64_t x_hash0, long init_events, long tasks_created, long fired, SvxState &st) {
     Case &c = x.c; Outcome &o = x.out; int n = c.M.n;
     long mode = c.tags.count("alloc_mode") ? c.tags["alloc_mode"] : 0;
-    o.probes[std::string("alloc_mode_") + std::to_string(mode)]++;
+    bool last = opi + 1 == (int)c.ops.size();
+    // two-call configurations: the first call is a fault-free first factorization (in the caller workspace of the configuration, which in
+    // mode 5 may be too small for it)
+    if (!last) mode = mode == 5 ? 5 : op.x.lwork > 0 ? 2 : 0;
+    if (last) o.probes[std::string("alloc_mode_") + std::to_string(mode)]++;
+    if (last && c.ops.size() > 1) o.probes[op.x.refact ? "alloc_second_call_refactorization" : op.x.fact == 2 ? "alloc_second_call_factored" : "alloc_second_call_other"]++;
     if (mode == 1 && op.kind == OP_GSSVX) {   // query
         o.probes["workspace_queries"]++;
         if (init_events != 0 || tasks_created != 0) add_viol(o, "C14", "query_factorizes", fmt("lwork=-1 started a factorization (%ld) or created %ld threads", init_events, tasks_created), opi);
@@ -747,7 +752,7 @@ Outcome run_case(Case &c, const RunnerOpts &ro) {
     if (!is_perm(x.base_perm_c, n)) add_viol(out, "C10", "ordering_not_bijection", "get_perm_c result is not a permutation", -1);
 
     SvxState svx_state;
-    bool last_fact_ok = false, last_fact_singular = false;
+    bool last_fact_ok = false, last_fact_singular = false, skip_rest = false;
     bool leakprof = c.profile == "leak" || c.profile == "symleak";
     if (leakprof) sim::forget_live_blocks();
     int reps = leakprof ? 2 : 1;
@@ -774,6 +779,7 @@ Outcome run_case(Case &c, const RunnerOpts &ro) {
     }
     for (int opi = 0; opi < (int)c.ops.size(); ++opi) {
         OpSpec &op = c.ops[opi];
+        if (skip_rest) break;
         if (ro.between && rep == 0 && opi == ro.between_after + 1) {
             // unrelated library calls between a factorization and the solves that reuse its factors (C18)
             const Case *sc = g_case; Outcome *so = g_out; std::string ss = g_sig_suffix;
@@ -910,6 +916,12 @@ Outcome run_case(Case &c, const RunnerOpts &ro) {
         }
         if (c.profile == "alloc") {
             eval_alloc(x, opi, op, info, xo, A_before, Bin, a_hash0, b_hash0, x_hash0, init_events, st.tasks_created, st.alloc_faults_fired, svx_state);
+            if (opi + 1 < (int)c.ops.size()) {
+                // two-call configuration: go on to the call under test only if the first factorization delivered factors
+                if (info == 0 || (op.kind == OP_GSSVX && info == n + 1)) continue;
+                out.probes["alloc_first_call_without_factors"]++;
+                skip_rest = true;
+            }
             if (drv.have_LU()) drv.destroy_LU(op.x.lwork > 0);
             {   // C17 on every return of the enumeration (query, sufficient, too-small workspace, failed request): nothing may stay behind
                 std::vector<sim::LiveBlock> lb; sim::live_blocks(lb);
